@@ -430,7 +430,7 @@ pub fn compile_real(pat: &str) -> Result<std::rc::Rc<regex::Regex>, String> {
         if let Some(r) = c.get(pat) {
             return Ok(r.clone());
         }
-        if c.len() > 20_000 {
+        if c.len() > 1_500 {
             c.clear();
         }
         let r = std::rc::Rc::new(compile_real_uncached(pat)?);
